@@ -1,4 +1,620 @@
 import GoProbeModel.Model.C01
+
+/-!
+C01 — property theorems: blocks read back byte-for-byte (`read_after_sessions`), by an invariant
+over write histories of the model of `GPFile.writeBlock` / `GPDir.WriteBlocks` / `ReadBlockAtIndex`.
+The encoder output is an input of every write; the theorems hold for every value that the decoder
+maps back to the raw bytes (the codecs themselves are third-party: C02/C07).
+-/
 namespace C01
-theorem placeholder : True := trivial
+
+theorem writeAt_length (f : Bytes) (p : Nat) (b : Bytes) (hp : p ≤ f.length) :
+    p + b.length ≤ (writeAt f p b).length := by
+  unfold writeAt
+  simp only [List.length_append, List.length_take, List.length_replicate, List.length_drop]
+  omega
+
+theorem writeAt_below (f : Bytes) (p : Nat) (b : Bytes) (hp : p ≤ f.length) (off len : Nat) (h : off + len ≤ p) :
+    ((writeAt f p b).drop off).take len = (f.drop off).take len := by
+  unfold writeAt
+  have h0 : p - f.length = 0 := by omega
+  simp only [h0, List.replicate_zero, List.append_nil, List.append_assoc]
+  rw [List.drop_append_of_le_length (by simp; omega)]
+  rw [List.take_append_of_le_length (by simp; omega)]
+  rw [List.drop_take]
+  rw [List.take_take]
+  congr 1
+  omega
+
+theorem writeAt_at (f : Bytes) (p : Nat) (b : Bytes) (hp : p ≤ f.length) :
+    ((writeAt f p b).drop p).take b.length = b := by
+  unfold writeAt
+  have h0 : p - f.length = 0 := by omega
+  simp only [h0, List.replicate_zero, List.append_nil, List.append_assoc]
+  have hl : (List.take p f).length = p := by simp; omega
+  rw [List.drop_append_of_le_length (by omega)]
+  rw [List.drop_of_length_le (by omega), List.nil_append]
+  rw [List.take_append_of_le_length (by omega)]
+  simp
+
+theorem writeAt_nil (f : Bytes) (p : Nat) (hp : p ≤ f.length) : writeAt f p [] = f := by
+  unfold writeAt
+  have h0 : p - f.length = 0 := by omega
+  simp [h0]
+
+/-- `f'` keeps every byte of `f` below `p` (and is at least `p` long) -/
+def Keeps (p : Nat) (f f' : Bytes) : Prop :=
+  p ≤ f'.length ∧ ∀ off len, off + len ≤ p → (f'.drop off).take len = (f.drop off).take len
+
+theorem Keeps.refl {p : Nat} {f : Bytes} (h : p ≤ f.length) : Keeps p f f := ⟨h, fun _ _ _ => rfl⟩
+
+theorem Keeps.trans {p : Nat} {f g k : Bytes} (h1 : Keeps p f g) (h2 : Keeps p g k) : Keeps p f k :=
+  ⟨h2.1, fun off len h => (h2.2 off len h).trans (h1.2 off len h)⟩
+
+theorem keeps_writeAt (f : Bytes) (p q : Nat) (b : Bytes) (hq : q ≤ f.length) (hpq : p ≤ q) :
+    Keeps p f (writeAt f q b) :=
+  ⟨by have := writeAt_length f q b hq; omega, fun off len h => writeAt_below f q b hq off len (by omega)⟩
+
+/-- Write through the 4096-byte `bufio.Writer` followed by `Flush` = one positional write -/
+theorem bufWrite_flush (f : Bytes) (p : Nat) (b : Bytes) (hp : p ≤ f.length) :
+    writeAt (bufWrite f p b).1 (bufWrite f p b).2.1 (bufWrite f p b).2.2 = writeAt f p b ∧
+    (bufWrite f p b).2.1 + (bufWrite f p b).2.2.length = p + b.length := by
+  unfold bufWrite
+  split
+  · refine ⟨writeAt_nil _ _ ?_, by simp⟩
+    exact writeAt_length f p b hp
+  · exact ⟨rfl, rfl⟩
+
+/-- `Write` whose buffered part is later discarded by `Reset`: bytes below `p` survive -/
+theorem bufWrite_keeps (f : Bytes) (p : Nat) (b : Bytes) (hp : p ≤ f.length) :
+    Keeps p f (bufWrite f p b).1 := by
+  unfold bufWrite
+  split
+  · exact keeps_writeAt f p p b hp (Nat.le_refl _)
+  · exact Keeps.refl hp
+
+/-- pointwise relation between two lists of equal length -/
+inductive All2 {α β : Type} (R : α → β → Prop) : List α → List β → Prop
+  | nil : All2 R [] []
+  | cons {a b l1 l2} : R a b → All2 R l1 l2 → All2 R (a :: l1) (b :: l2)
+
+/-! ## the per-column invariant -/
+
+/-- header entry `b` faithfully stores history entry `h = (timestamp, raw bytes)` in `file` -/
+def Good (dec : Bytes → Option Bytes) (file : Bytes) (cur : Nat) (b : Blk) (h : Int × Bytes) : Prop :=
+  b.ts = h.1 ∧ b.rawLen = h.2.length ∧ b.off + b.len ≤ cur ∧
+  (b.rawLen = 0 ∨ (b.enc = 0 ∧ b.len = b.rawLen ∧ (file.drop b.off).take b.len = h.2) ∨
+   (b.enc ≠ 0 ∧ dec ((file.drop b.off).take b.len) = some h.2))
+
+structure ColInv (dec : Bytes → Option Bytes) (c : Col) (hist : List (Int × Bytes)) : Prop where
+  blocks : All2 (Good dec c.file c.cur) c.hdr hist
+  cur_le : c.cur ≤ c.file.length
+  pos_ok : c.pos = none ∨ c.pos = some c.cur
+
+theorem Good.mono {dec file file' cur cur' b h} (hg : Good dec file cur b h)
+    (hk : Keeps cur file file') (hc : cur ≤ cur') : Good dec file' cur' b h := by
+  obtain ⟨h1, h2, h3, h4⟩ := hg
+  refine ⟨h1, h2, by omega, ?_⟩
+  rcases h4 with h4 | ⟨e, l, s⟩ | ⟨e, s⟩
+  · exact Or.inl h4
+  · exact Or.inr (Or.inl ⟨e, l, by rw [hk.2 _ _ h3]; exact s⟩)
+  · exact Or.inr (Or.inr ⟨e, by rw [hk.2 _ _ h3]; exact s⟩)
+
+theorem forall₂_mono {dec file file' cur cur'} {hdr : List Blk} {hist : List (Int × Bytes)}
+    (h : All2 (Good dec file cur) hdr hist) (hk : Keeps cur file file') (hc : cur ≤ cur') :
+    All2 (Good dec file' cur') hdr hist := by
+  induction h with
+  | nil => exact .nil
+  | cons a _ ih => exact .cons (a.mono hk hc) ih
+
+theorem forall₂_snoc {α β : Type} {R : α → β → Prop} {l1 : List α} {l2 : List β} {a b}
+    (h : All2 R l1 l2) (hab : R a b) : All2 R (l1 ++ [a]) (l2 ++ [b]) := by
+  induction h with
+  | nil => exact .cons hab .nil
+  | cons x _ ih => exact .cons x ih
+
+/-- **one accepted block write preserves the invariant and appends exactly (ts, data)** —
+    for every size (incl. > 4096 and incompressible), every encoder output that decodes back. -/
+theorem writeBlock_inv (dec : Bytes → Option Bytes) (dflt : Nat) (c c' : Col) (hist : List (Int × Bytes))
+    (ts : Int) (data comp : Bytes)
+    (hinv : ColInv dec c hist)
+    (hdec : dflt ≠ 0 → dec comp = some data) (hnull : dflt = 0 → comp = data)
+    (hw : writeBlock dflt c ts data comp = some c') :
+    ColInv dec c' (hist ++ [(ts, data)]) := by
+  unfold writeBlock at hw
+  split at hw
+  · simp at hw
+  · split at hw
+    · -- empty block: only the header grows
+      rename_i _ hlen
+      simp only [Option.some.injEq] at hw
+      subst hw
+      refine ⟨forall₂_snoc hinv.blocks ⟨rfl, ?_, by simp, Or.inl rfl⟩, hinv.cur_le, hinv.pos_ok⟩
+      have : data = [] := List.eq_nil_of_length_eq_zero hlen
+      simp [this]
+    · rename_i _ hlen
+      have hp0 : c.pos.getD c.cur = c.cur := by
+        rcases hinv.pos_ok with h | h <;> simp [h]
+      simp only [hp0] at hw
+      split at hw
+      · -- fallback to the null encoder
+        rename_i hgt
+        simp only [Option.some.injEq] at hw
+        have hk1 := bufWrite_keeps c.file c.cur comp hinv.cur_le
+        have hfl := bufWrite_flush (bufWrite c.file c.cur comp).1 c.cur data hk1.1
+        have hk2 : Keeps c.cur c.file (writeAt (bufWrite c.file c.cur comp).1 c.cur data) :=
+          hk1.trans (keeps_writeAt _ _ _ _ hk1.1 (Nat.le_refl _))
+        subst hw
+        simp only [hfl.1, hfl.2]
+        refine ⟨forall₂_snoc (forall₂_mono hinv.blocks hk2 (Nat.le_add_right _ _)) ?_, ?_, Or.inr rfl⟩
+        · refine ⟨rfl, rfl, by simp, Or.inr (Or.inl ⟨rfl, rfl, ?_⟩)⟩
+          exact writeAt_at _ _ _ hk1.1
+        · exact writeAt_length _ _ _ hk1.1
+      · -- encoder output kept
+        rename_i hle
+        simp only [Option.some.injEq] at hw
+        have hfl := bufWrite_flush c.file c.cur comp hinv.cur_le
+        have hk : Keeps c.cur c.file (writeAt c.file c.cur comp) := keeps_writeAt _ _ _ _ hinv.cur_le (Nat.le_refl _)
+        subst hw
+        simp only [hfl.1, hfl.2]
+        refine ⟨forall₂_snoc (forall₂_mono hinv.blocks hk (Nat.le_add_right _ _)) ?_, ?_, Or.inr rfl⟩
+        · refine ⟨rfl, rfl, by simp, ?_⟩
+          by_cases hd : dflt = 0
+          · have := hnull hd
+            subst this
+            exact Or.inr (Or.inl ⟨hd, rfl, writeAt_at _ _ _ hinv.cur_le⟩)
+          · refine Or.inr (Or.inr ⟨hd, ?_⟩)
+            show dec (List.take comp.length (List.drop c.cur (writeAt c.file c.cur comp))) = some data
+            rw [writeAt_at _ _ _ hinv.cur_le]; exact hdec hd
+        · exact writeAt_length _ _ _ hinv.cur_le
+
+/-- **every stored block reads back as the bytes that were written** -/
+theorem readBlock_good (dec : Bytes → Option Bytes) (file : Bytes) (cur : Nat) (hcur : cur ≤ file.length)
+    (b : Blk) (h : Int × Bytes) (hg : Good dec file cur b h) : readBlock dec file b = some h.2 := by
+  obtain ⟨_, h2, h3, h4⟩ := hg
+  unfold readBlock
+  by_cases h0 : b.rawLen = 0
+  · have : h.2 = [] := List.eq_nil_of_length_eq_zero (by omega)
+    simp [h0, this]
+  · simp only [h0, if_false]
+    rcases h4 with h4 | ⟨e, l, s⟩ | ⟨e, s⟩
+    · exact absurd h4 h0
+    · simp only [e, if_true]
+      rw [← l, s]; simp [h2, l]
+    · simp only [e, if_false]
+      have hl : (List.take b.len (List.drop b.off file)).length = b.len := by
+        simp only [List.length_take, List.length_drop]; omega
+      simp [hl, s, h2]
+
+/-! ## the day directory: 8 columns, sessions, abandoned sessions -/
+
+/-- contract between the raw bytes and the encoder output handed to a write -/
+def Contract (dec : Bytes → Option Bytes) (dflt : Nat) (w : Write) : Prop :=
+  w.cols.length = 8 ∧ ∀ p ∈ w.cols, (dflt ≠ 0 → dec p.2 = some p.1) ∧ (dflt = 0 → p.2 = p.1)
+
+def colHist (ws : List Write) (j : Nat) : List (Int × Bytes) :=
+  ws.map fun w => (w.ts, (w.cols.getD j ([], [])).1)
+
+def hists (ws : List Write) : List (List (Int × Bytes)) := (List.range 8).map (colHist ws)
+
+structure DayInv (dec : Bytes → Option Bytes) (d : Day) (ws : List Write) : Prop where
+  cols : All2 (ColInv dec) d.cols (hists ws)
+  traffic : d.traffic = ws.map (·.tm)
+  tot : d.tot = (ws.foldl (fun a w => add3 a w.tm) (0,0,0), ws.foldl (fun a w => add4 a w.cnt) (0,0,0,0))
+
+theorem range_map_getD {α β : Type} (l : List α) (d : α) (f : α → β) :
+    (List.range l.length).map (fun j => f (l.getD j d)) = l.map f := by
+  apply List.ext_getElem
+  · simp
+  · intro i h1 h2
+    simp only [List.getElem_map, List.getElem_range]
+    simp only [List.length_map, List.length_range] at h1
+    simp [List.getD_eq_getElem?_getD, List.getElem?_eq_getElem h1]
+
+theorem hists_snoc (ws : List Write) (w : Write) (hw : w.cols.length = 8) :
+    hists (ws ++ [w]) = List.zipWith (fun h (d : Bytes × Bytes) => h ++ [(w.ts, d.1)]) (hists ws) w.cols := by
+  unfold hists colHist
+  apply List.ext_getElem
+  · simp [hw]
+  · intro i h1 h2
+    simp only [List.length_map, List.length_range] at h1
+    simp [List.getD_eq_getElem?_getD, List.getElem?_eq_getElem (show i < w.cols.length by omega)]
+
+/-- the timestamps stored in a column header are those of its history -/
+theorem hdr_ts {dec file cur} {hdr : List Blk} {hist : List (Int × Bytes)}
+    (h : All2 (Good dec file cur) hdr hist) : hdr.map (·.ts) = hist.map (·.1) := by
+  induction h with
+  | nil => rfl
+  | cons a _ ih => simp [a.1, ih]
+
+theorem writeBlock_none_iff {dec} (dflt : Nat) (c : Col) (hist : List (Int × Bytes)) (ts : Int) (data comp : Bytes)
+    (hinv : ColInv dec c hist) : writeBlock dflt c ts data comp = none ↔ ts ∈ hist.map (·.1) := by
+  have := hdr_ts hinv.blocks
+  unfold writeBlock
+  have hany : (c.hdr.any (·.ts == ts)) = true ↔ ts ∈ hist.map (·.1) := by
+    rw [← this, List.any_eq_true, List.mem_map]
+    constructor
+    · rintro ⟨b, hb, he⟩; exact ⟨b, hb, by simpa using he⟩
+    · rintro ⟨b, hb, he⟩; exact ⟨b, hb, by simpa using he⟩
+  by_cases hm : ts ∈ hist.map (·.1)
+  · simp [hany.2 hm, hm]
+  · have hf : (c.hdr.any (·.ts == ts)) = false := by
+      cases hb : c.hdr.any (·.ts == ts) with
+      | true => exact absurd (hany.1 hb) hm
+      | false => rfl
+    simp only [hf, Bool.false_eq_true, if_false, hm, iff_false]
+    split
+    · simp
+    · split <;> simp
+
+/-- relation between a column before and after some writes of a session -/
+def Ext (o n : Col) : Prop := o.cur ≤ n.cur ∧ Keeps o.cur o.file n.file
+
+theorem keeps_weaken {p q : Nat} {f g : Bytes} (h : Keeps q f g) (hpq : p ≤ q) : Keeps p f g :=
+  ⟨by have := h.1; omega, fun off len hl => h.2 off len (by omega)⟩
+
+theorem Ext.refl {dec c hist} (h : ColInv dec c hist) : Ext c c := ⟨Nat.le_refl _, Keeps.refl h.cur_le⟩
+
+theorem Ext.trans {a b c : Col} (h1 : Ext a b) (h2 : Ext b c) : Ext a c :=
+  ⟨Nat.le_trans h1.1 h2.1, h1.2.trans (keeps_weaken h2.2 h1.1)⟩
+
+theorem writeBlock_ext {dec} (dflt : Nat) (c c' : Col) (hist : List (Int × Bytes)) (ts : Int) (data comp : Bytes)
+    (hinv : ColInv dec c hist) (hw : writeBlock dflt c ts data comp = some c') : Ext c c' := by
+  unfold writeBlock at hw
+  split at hw
+  · simp at hw
+  · split at hw
+    · simp only [Option.some.injEq] at hw; subst hw; exact ⟨Nat.le_refl _, Keeps.refl hinv.cur_le⟩
+    · have hp0 : c.pos.getD c.cur = c.cur := by
+        rcases hinv.pos_ok with h | h <;> simp [h]
+      simp only [hp0] at hw
+      split at hw
+      · simp only [Option.some.injEq] at hw
+        have hk1 := bufWrite_keeps c.file c.cur comp hinv.cur_le
+        have hfl := bufWrite_flush (bufWrite c.file c.cur comp).1 c.cur data hk1.1
+        subst hw
+        simp only [hfl.1]
+        exact ⟨Nat.le_add_right _ _, hk1.trans (keeps_writeAt _ _ _ _ hk1.1 (Nat.le_refl _))⟩
+      · simp only [Option.some.injEq] at hw
+        have hfl := bufWrite_flush c.file c.cur comp hinv.cur_le
+        subst hw
+        simp only [hfl.1]
+        exact ⟨Nat.le_add_right _ _, keeps_writeAt _ _ _ _ hinv.cur_le (Nat.le_refl _)⟩
+
+/-- `WriteBlocks` over the columns when the timestamp is new: every column appends its payload -/
+theorem writeCols_ok {dec} (dflt : Nat) (ts : Int) (cols : List Col) (hs : List (List (Int × Bytes)))
+    (ds : List (Bytes × Bytes))
+    (hinv : All2 (ColInv dec) cols hs) (hlen : ds.length = cols.length)
+    (hc : ∀ p ∈ ds, (dflt ≠ 0 → dec p.2 = some p.1) ∧ (dflt = 0 → p.2 = p.1))
+    (hnew : ∀ h ∈ hs, ts ∉ h.map (·.1)) :
+    ∃ cols', writeCols dflt ts cols ds = (cols', true) ∧
+      All2 (ColInv dec) cols' (List.zipWith (fun h (d : Bytes × Bytes) => h ++ [(ts, d.1)]) hs ds) ∧
+      All2 Ext cols cols' := by
+  induction hinv generalizing ds with
+  | nil =>
+    cases ds with
+    | nil => exact ⟨[], by simp [writeCols], .nil, .nil⟩
+    | cons _ _ => simp at hlen
+  | @cons c h cs hs' hch _ ih =>
+    cases ds with
+    | nil => simp at hlen
+    | cons d ds' =>
+      have hd := hc d (by simp)
+      cases hwb : writeBlock dflt c ts d.1 d.2 with
+      | none =>
+        exact absurd ((writeBlock_none_iff dflt c h ts d.1 d.2 hch).1 hwb) (hnew h (by simp))
+      | some c' =>
+        obtain ⟨cols', h1, h2, h3⟩ := ih ds' (by simpa using hlen) (fun p hp => hc p (by simp [hp]))
+          (fun x hx => hnew x (by simp [hx]))
+        refine ⟨c' :: cols', ?_, ?_, ?_⟩
+        · obtain ⟨d1, d2⟩ := d
+          simp only [writeCols, hwb, h1]
+        · simp only [List.zipWith_cons_cons]
+          exact .cons (writeBlock_inv dec dflt c c' h ts d.1 d.2 hch hd.1 hd.2 hwb) h2
+        · exact .cons (writeBlock_ext dflt c c' h ts d.1 d.2 hch hwb) h3
+
+/-- … and when the timestamp is already stored the very first column rejects it: nothing changes -/
+theorem writeCols_dup {dec} (dflt : Nat) (ts : Int) (c : Col) (h : List (Int × Bytes)) (cs : List Col)
+    (d : Bytes × Bytes) (ds : List (Bytes × Bytes)) (hch : ColInv dec c h) (hdup : ts ∈ h.map (·.1)) :
+    writeCols dflt ts (c :: cs) (d :: ds) = (c :: cs, false) := by
+  obtain ⟨d1, d2⟩ := d
+  simp only [writeCols, (writeBlock_none_iff dflt c h ts d1 d2 hch).2 hdup]
+
+theorem all2_ext_refl {dec} {cols : List Col} {hs : List (List (Int × Bytes))}
+    (h : All2 (ColInv dec) cols hs) : All2 Ext cols cols := by
+  induction h with
+  | nil => exact .nil
+  | cons a _ ih => exact .cons (Ext.refl a) ih
+
+theorem all2_ext_trans {a b c : List Col} (h1 : All2 Ext a b) (h2 : All2 Ext b c) : All2 Ext a c := by
+  induction h1 generalizing c with
+  | nil => cases h2; exact .nil
+  | cons x _ ih => cases h2 with | cons y ys => exact .cons (x.trans y) (ih ys)
+
+theorem hists_ts (ws : List Write) : ∀ h ∈ hists ws, h.map (·.1) = ws.map (·.ts) := by
+  intro h hh
+  simp only [hists, List.mem_map, List.mem_range] at hh
+  obtain ⟨j, _, rfl⟩ := hh
+  simp [colHist]
+
+
+/-- one `WriteBlocks` call on a day -/
+theorem writeBlocks_step {dec} (dflt : Nat) (d : Day) (ws : List Write) (w : Write)
+    (hinv : DayInv dec d ws) (hc : Contract dec dflt w) :
+    (w.ts ∉ ws.map (·.ts) → ∃ d', writeBlocks dflt d w = (d', true) ∧ DayInv dec d' (ws ++ [w]) ∧ All2 Ext d.cols d'.cols) ∧
+    (w.ts ∈ ws.map (·.ts) → writeBlocks dflt d w = (d, false)) := by
+  constructor
+  · intro hnew
+    have hl : w.cols.length = d.cols.length := by
+      have : d.cols.length = (hists ws).length := by
+        clear hnew hc
+        have := hinv.cols
+        generalize d.cols = a at this
+        generalize hists ws = b at this
+        induction this with
+        | nil => rfl
+        | cons _ _ ih => simp [ih]
+      rw [this, hc.1]; simp [hists]
+    obtain ⟨cols', h1, h2, h3⟩ := writeCols_ok dflt w.ts d.cols (hists ws) w.cols hinv.cols hl hc.2
+      (fun h hh => by rw [hists_ts ws h hh]; exact hnew)
+    refine ⟨{ cols := cols', traffic := d.traffic ++ [w.tm], tot := (add3 d.tot.1 w.tm, add4 d.tot.2 w.cnt) }, ?_, ?_, h3⟩
+    · simp [writeBlocks, h1]
+    · refine ⟨by rw [hists_snoc ws w hc.1]; exact h2, by simp [hinv.traffic], ?_⟩
+      simp [hinv.tot, List.foldl_append]
+  · intro hdup
+    have hcols := hinv.cols
+    have hne : ∃ p ps, w.cols = p :: ps := by
+      cases hw : w.cols with
+      | nil => have := hc.1; simp [hw] at this
+      | cons p ps => exact ⟨p, ps, rfl⟩
+    obtain ⟨p, ps, hp⟩ := hne
+    have hh : hists ws = colHist ws 0 :: (List.range' 1 7).map (colHist ws) := by
+      simp [hists, List.range_succ_eq_map, List.range'_eq_map_range]
+    rw [hh] at hcols
+    generalize hdc : d.cols = dc at hcols
+    cases hcols with
+    | @cons c h cs hs' hch _ =>
+      have : writeCols dflt w.ts d.cols w.cols = (d.cols, false) := by
+        rw [hdc, hp]
+        exact writeCols_dup dflt w.ts c _ cs p ps hch (by simpa [colHist] using hdup)
+      simp [writeBlocks, this]
+
+/-- the write loop of one session -/
+theorem go_spec {dec} (dflt : Nat) : ∀ (s : Session) (d : Day) (ws : List Write),
+    DayInv dec d ws → (∀ w ∈ s, Contract dec dflt w) →
+    All2 Ext d.cols (runSession.go dflt d s).1.cols ∧
+    (sessionAccepted (ws.map (·.ts)) s = true →
+       (runSession.go dflt d s).2 = true ∧ DayInv dec (runSession.go dflt d s).1 (ws ++ s)) ∧
+    (sessionAccepted (ws.map (·.ts)) s = false → (runSession.go dflt d s).2 = false) := by
+  intro s
+  induction s with
+  | nil =>
+    intro d ws hinv _
+    have e0 : runSession.go dflt d [] = (d, true) := rfl
+    rw [e0]
+    exact ⟨all2_ext_refl hinv.cols, fun _ => ⟨rfl, by simpa using hinv⟩, fun h => by simp [sessionAccepted] at h⟩
+  | cons w s ih =>
+    intro d ws hinv hc
+    have hw := writeBlocks_step dflt d ws w hinv (hc w (by simp))
+    by_cases hdup : w.ts ∈ ws.map (·.ts)
+    · have e := hw.2 hdup
+      have hacc : sessionAccepted (ws.map (·.ts)) (w :: s) = false := by
+        have : (ws.map (·.ts)).contains w.ts = true := by simpa using hdup
+        simp only [sessionAccepted, this, Bool.not_true, Bool.false_and]
+      have e1 : runSession.go dflt d (w :: s) = (d, false) := by simp only [runSession.go, e]
+      rw [e1]
+      exact ⟨all2_ext_refl hinv.cols, fun h => by rw [hacc] at h; simp at h, fun _ => rfl⟩
+    · obtain ⟨d', e, hinv', hext⟩ := hw.1 hdup
+      have hih := ih d' (ws ++ [w]) hinv' (fun x hx => hc x (by simp [hx]))
+      have hacc : sessionAccepted (ws.map (·.ts)) (w :: s) = sessionAccepted ((ws ++ [w]).map (·.ts)) s := by
+        have : (ws.map (·.ts)).contains w.ts = false := by simpa using hdup
+        simp only [sessionAccepted, this, Bool.not_false, Bool.true_and, List.map_append, List.map_cons, List.map_nil]
+      have e1 : runSession.go dflt d (w :: s) = runSession.go dflt d' s := by simp only [runSession.go, e]
+      rw [e1, hacc]
+      refine ⟨all2_ext_trans hext hih.1, fun h => ?_, hih.2.2⟩
+      have := hih.2.1 h
+      simpa using this
+
+theorem colInv_restore {dec} {o n : Col} {h : List (Int × Bytes)} (hi : ColInv dec o h) (he : Ext o n) :
+    ColInv dec { o with file := n.file, pos := none } h :=
+  ⟨forall₂_mono hi.blocks he.2 (Nat.le_refl _), he.2.1, Or.inl rfl⟩
+
+theorem all2_restore {dec} {os ns : List Col} {hs : List (List (Int × Bytes))}
+    (hi : All2 (ColInv dec) os hs) (he : All2 Ext os ns) :
+    All2 (ColInv dec) ((os.zip ns).map fun (o, n) => { o with file := n.file, pos := none }) hs := by
+  induction hi generalizing ns with
+  | nil => cases he; exact .nil
+  | cons a _ ih => cases he with | cons x xs => exact .cons (colInv_restore a x) (ih xs)
+
+theorem all2_closepos {dec} {cs : List Col} {hs : List (List (Int × Bytes))}
+    (hi : All2 (ColInv dec) cs hs) : All2 (ColInv dec) (cs.map fun c => { c with pos := none }) hs := by
+  induction hi with
+  | nil => exact .nil
+  | cons a _ ih => exact .cons ⟨a.blocks, a.cur_le, Or.inl rfl⟩ ih
+
+/-- **one session**: committed iff the spec accepts it; an abandoned session leaves every committed
+    block readable (only bytes beyond `CurrentOffset` changed) -/
+theorem runSession_spec {dec} (dflt : Nat) (d : Day) (ws : List Write) (s : Session)
+    (hinv : DayInv dec d ws) (hc : ∀ w ∈ s, Contract dec dflt w) :
+    DayInv dec (runSession dflt d s) (if sessionAccepted (ws.map (·.ts)) s then ws ++ s else ws) := by
+  have h := go_spec dflt s d ws hinv hc
+  unfold runSession
+  cases hacc : sessionAccepted (ws.map (·.ts)) s with
+  | true =>
+    obtain ⟨hok, hinv'⟩ := h.2.1 hacc
+    simp only [hok, if_true]
+    exact ⟨all2_closepos hinv'.cols, hinv'.traffic, hinv'.tot⟩
+  | false =>
+    have hok := h.2.2 hacc
+    simp only [hok, Bool.false_eq_true, if_false]
+    exact ⟨all2_restore hinv.cols h.1, hinv.traffic, hinv.tot⟩
+
+theorem dayInv_empty (dec) : DayInv dec Day.empty [] := by
+  refine ⟨?_, rfl, rfl⟩
+  have e : hists [] = List.replicate 8 [] := by decide
+  rw [e]
+  simp only [Day.empty, List.replicate]
+  repeat' constructor
+
+/-- **all sessions**: the day holds exactly the writes of the accepted sessions -/
+theorem runSessions_inv {dec} (dflt : Nat) (ss : List Session)
+    (hc : ∀ s ∈ ss, ∀ w ∈ s, Contract dec dflt w) :
+    DayInv dec (runSessions dflt ss) (specBlocks [] ss) := by
+  unfold runSessions
+  suffices H : ∀ (ss : List Session) (d : Day) (ws : List Write), DayInv dec d ws →
+      (∀ s ∈ ss, ∀ w ∈ s, Contract dec dflt w) →
+      DayInv dec (ss.foldl (runSession dflt) d) (specBlocks ws ss) from H ss _ _ (dayInv_empty dec) hc
+  intro ss
+  induction ss with
+  | nil => intro d ws h _; simpa [specBlocks] using h
+  | cons s ss ih =>
+    intro d ws h hc
+    have hs := runSession_spec dflt d ws s h (hc s (by simp))
+    simp only [List.foldl_cons, specBlocks]
+    split
+    · rename_i hacc; simp only [hacc, if_true] at hs
+      exact ih _ _ hs (fun x hx => hc x (by simp [hx]))
+    · rename_i hacc
+      have : sessionAccepted (ws.map (·.ts)) s = false := by simpa using hacc
+      simp only [this, Bool.false_eq_true, if_false] at hs
+      exact ih _ _ hs (fun x hx => hc x (by simp [hx]))
+
+/-! ## the reader's view equals the spec -/
+
+theorem readAll_good {dec file cur} {hdr : List Blk} {hist : List (Int × Bytes)}
+    (hb : All2 (Good dec file cur) hdr hist) (hcur : cur ≤ file.length) :
+    hdr.map (readBlock dec file) = hist.map (fun e => some e.2) := by
+  induction hb with
+  | nil => rfl
+  | cons g _ ih => simp only [List.map_cons, readBlock_good dec file cur hcur _ _ g, ih]
+
+theorem percol_eq {dec} {cols : List Col} {hs : List (List (Int × Bytes))}
+    (h : All2 (ColInv dec) cols hs) :
+    cols.map (fun c => c.hdr.map (readBlock dec c.file)) = hs.map (fun h => h.map (fun e => some e.2)) := by
+  induction h with
+  | nil => rfl
+  | cons hc _ ih => simp only [List.map_cons, ih, readAll_good hc.blocks hc.cur_le]
+
+theorem transpose_hists (g : Nat → Write → Option Bytes) (ws : List Write) :
+    transposeBlocks ((List.range 8).map fun j => ws.map (g j)) ws.length
+      = ws.map fun w => (List.range 8).map fun j => g j w := by
+  induction ws with
+  | nil => simp [transposeBlocks]
+  | cons w ws ih =>
+    simp only [List.length_cons, transposeBlocks, List.map_map, List.map_cons]
+    have : (List.tail ∘ fun j => g j w :: List.map (g j) ws) = fun j => ws.map (g j) := by
+      funext j; rfl
+    rw [this, ih]
+    simp [Function.comp_def]
+
+theorem zip3_map {α : Type} (ws : List α) (f : α → Int) (g : α → Nat × Nat × Nat) (r : α → List (Option Bytes)) :
+    ((ws.map f).zip ((ws.map g).zip (ws.map r))).map (fun (x : Int × (Nat × Nat × Nat) × List (Option Bytes)) =>
+        ({ ts := x.1, tm := x.2.1, cols := x.2.2 } : RBlock))
+      = ws.map fun w => { ts := f w, tm := g w, cols := r w } := by
+  induction ws with
+  | nil => rfl
+  | cons w ws ih => simp [ih]
+
+theorem view_of_inv {dec} (d : Day) (ws : List Write) (hinv : DayInv dec d ws)
+    (h8 : ∀ w ∈ ws, w.cols.length = 8) :
+    view dec d = { blocks := ws.map fun w => { ts := w.ts, tm := w.tm, cols := w.cols.map fun c => some c.1 },
+                   totals := (ws.foldl (fun a w => add3 a w.tm) (0,0,0), ws.foldl (fun a w => add4 a w.cnt) (0,0,0,0)) } := by
+  have hp := percol_eq hinv.cols
+  have hts : (d.cols.head?.map (·.hdr.map (·.ts))).getD [] = ws.map (·.ts) := by
+    have hcols := hinv.cols
+    have hh : hists ws = colHist ws 0 :: (List.range' 1 7).map (colHist ws) := by
+      simp [hists, List.range_succ_eq_map, List.range'_eq_map_range]
+    rw [hh] at hcols
+    generalize d.cols = dc at hcols
+    cases hcols with
+    | @cons c h cs hs' hch _ =>
+      simp only [List.head?_cons, Option.map_some, Option.getD_some]
+      rw [hdr_ts hch.blocks]; simp [colHist]
+  unfold view
+  simp only [hp, hts, hinv.traffic, hinv.tot, List.length_map]
+  congr 1
+  have e1 : (hists ws).map (fun h => h.map fun e => some e.2)
+      = (List.range 8).map fun j => ws.map (fun w => some (w.cols.getD j ([], [])).1) := by
+    simp [hists, colHist, Function.comp_def]
+  rw [e1, transpose_hists (fun j w => some (w.cols.getD j ([], [])).1) ws]
+  have e2 : (ws.map fun w => (List.range 8).map fun j => some (w.cols.getD j ([], [])).1)
+      = ws.map fun w => w.cols.map fun c => some c.1 := by
+    apply List.map_congr_left
+    intro w hw
+    have := range_map_getD w.cols ([], []) (fun c : Bytes × Bytes => some c.1)
+    rw [h8 w hw] at this
+    exact this
+  rw [e2]
+  exact zip3_map ws (·.ts) (·.tm) (fun w => w.cols.map fun c => some c.1)
+
+theorem mem_specBlocks (acc : List Write) (ss : List Session) (w : Write) (h : w ∈ specBlocks acc ss) :
+    w ∈ acc ∨ ∃ s ∈ ss, w ∈ s := by
+  induction ss generalizing acc with
+  | nil => left; simpa [specBlocks] using h
+  | cons s ss ih =>
+    simp only [specBlocks] at h
+    split at h
+    · rcases ih _ h with h' | ⟨s', hs', hw⟩
+      · rcases List.mem_append.1 h' with h'' | h''
+        · exact Or.inl h''
+        · exact Or.inr ⟨s, by simp, h''⟩
+      · exact Or.inr ⟨s', by simp [hs'], hw⟩
+    · rcases ih _ h with h' | ⟨s', hs', hw⟩
+      · exact Or.inl h'
+      · exact Or.inr ⟨s', by simp [hs'], hw⟩
+
+/-- **read_after_sessions** (C01): for every default encoder, every decoder that inverts the encoder
+    on the payloads written, every list of sessions (any sizes — below and above the 4096-byte
+    buffer, compressible or not — any split into sessions, abandoned sessions included), a fresh
+    reader sees exactly the blocks of the accepted sessions: same timestamps in order, every
+    column byte-for-byte, the per-block summaries and the day totals. -/
+theorem read_after_sessions (dec : Bytes → Option Bytes) (dflt : Nat) (ss : List Session)
+    (hc : ∀ s ∈ ss, ∀ w ∈ s, Contract dec dflt w) :
+    view dec (runSessions dflt ss) = specView ss := by
+  have hinv := runSessions_inv (dec := dec) dflt ss hc
+  have h8 : ∀ w ∈ specBlocks [] ss, w.cols.length = 8 := by
+    intro w hw
+    rcases mem_specBlocks [] ss w hw with h | ⟨s, hs, hws⟩
+    · simp at h
+    · exact (hc s hs w hws).1
+  rw [view_of_inv _ _ hinv h8]
+  rfl
+
+/-! ## non-vacuity: the hypotheses are satisfiable on the witness of the repaired defect -/
+
+/-- a 5000-byte block whose encoder output (5020 bytes) exceeds both the raw size and the 4096-byte
+    buffer — the shape that read back wrong before the `fix:` — followed by a second block in the
+    same session: the contract of `read_after_sessions` holds for it, and the fallback branch with
+    write-through really is the one taken. -/
+example :
+    let data : Bytes := List.replicate 5000 7
+    let comp : Bytes := List.replicate 5020 9
+    let small : Bytes × Bytes := ([1,2,3], [4,5])
+    let w1 : Write := { ts := 300, tm := (1,0,0), cnt := (1,1,1,1), cols := (data, comp) :: List.replicate 7 small }
+    let w2 : Write := { ts := 600, tm := (1,0,0), cnt := (1,1,1,1), cols := List.replicate 8 small }
+    let dec : Bytes → Option Bytes := fun c => if c = comp then some data else if c = [4,5] then some [1,2,3] else none
+    (∀ s ∈ [[w1, w2]], ∀ w ∈ s, Contract dec 1 w) ∧ comp.length > data.length ∧ comp.length > bufSize := by
+  intro data comp small w1 w2 dec
+  have hlc : comp.length = 5020 := List.length_replicate ..
+  have hld : data.length = 5000 := List.length_replicate ..
+  have hne : ([4,5] : Bytes) ≠ comp := by
+    intro h; have := congrArg List.length h; rw [hlc] at this; simp at this
+  refine ⟨?_, by rw [hlc, hld]; omega, by rw [hlc]; simp [bufSize]⟩
+  intro s hs w hw
+  simp only [List.mem_singleton] at hs
+  subst hs
+  simp only [List.mem_cons, List.not_mem_nil, or_false] at hw
+  rcases hw with rfl | rfl
+  · refine ⟨by simp [w1], ?_⟩
+    intro p hp
+    simp only [w1, List.mem_cons, List.mem_replicate] at hp
+    rcases hp with rfl | ⟨_, rfl⟩
+    · exact ⟨fun _ => by simp [dec], fun h => by simp at h⟩
+    · exact ⟨fun _ => by simp [dec, small, hne], fun h => by simp at h⟩
+  · refine ⟨by simp [w2], ?_⟩
+    intro p hp
+    simp only [w2, List.mem_replicate] at hp
+    obtain ⟨_, rfl⟩ := hp
+    exact ⟨fun _ => by simp [dec, small, hne], fun h => by simp at h⟩
+
 end C01
